@@ -74,10 +74,11 @@ Definition with_wt (w : world) (wt : tree) (um : bool) : world :=
 Definition with_branch (w : world) (objs : store) (b : oid) : world :=
   mkWorld objs b (w_stack w) (w_prefs w) (w_wt w) (w_unmerged w) (w_base w).
 
+(* Stack::check_head_top_mismatch: the topmost applied patch must be the branch head *)
 Definition head_top_ok (op : opened) : bool :=
   match s_applied (op_state op) with
   | [] => true
-  | _ => Nat.eqb (s_head (op_state op)) (w_branch (op_world op))
+  | _ => Nat.eqb (s_top (op_state op)) (w_branch (op_world op))
   end.
 
 (* resolve_allow_push_conflicts with stgit.push.allow-conflicts unset *)
